@@ -1,1 +1,2 @@
 import Generated.Facts
+import Generated.Arith
